@@ -36,6 +36,13 @@ var checkC02 = register("C02/decode", func(c scoreCase3) string {
 	if !grid || k != want {
 		return fmt.Sprintf("temporal score %v, exact FIRST value %d.%d (base %d tenths)", fmtScore(got), want/10, want%10, spec.V3Base10(idx.Ver, idx.B))
 	}
+	if level == spec.Environmental { // again, after the environmental level has been queried
+		o.E.Score()
+		o.E.Severity()
+		if again := o.E.TemporalMetrics().Score(); again != got {
+			return fmt.Sprintf("temporal score %v read before, %v read after the environmental score of the same object was queried", fmtScore(got), fmtScore(again))
+		}
+	}
 	return ""
 })
 
